@@ -37,6 +37,9 @@ def valid_placement(t, k, hz, H):
     """user-level validity of one task's placement (C01 meaning; an unscheduled task sits at the
     library's conventional point -k with zero duration -- auxiliary from the user's point of view)"""
     s = spec.sched(t)
+    if not t.optional:
+        return spec.task_timing(t, hz, H)
+    k = -spec.past_point(t)
     un = [t._start == -k, t._end == -k]
     if type(t).__name__ == "VariableDurationTask":
         un.append(t._duration == 0)
